@@ -60,7 +60,7 @@ theorem str_trans (a b c : List Nat) : Obs.trans (obsStr a b) (obsStr b c) (obsS
   · by_cases h2 : b = c
     · subst h2; simp [h1, Str.lt_irrefl]
     · simp only [h1, h2, decide_false, Bool.or_false, Bool.false_and, Bool.and_false, Bool.not_false,
-        Bool.true_or, Bool.true_and, Bool.and_true]
+        Bool.true_or, Bool.and_true]
       cases hab : Str.lt a b <;> cases hbc : Str.lt b c <;> simp
       simp [Str.lt_trans a b c hab hbc]
 
@@ -207,6 +207,15 @@ theorem sort_ordered_permutation {α : Type} (before : α → α → Bool) (P : 
     ∃ out, sortSeg before arr.size arr 0 arr.size = some out ∧
       out.toList.Perm arr.toList ∧ out.toList.Pairwise (fun x y => before y x = false) :=
   sortSeg_full before P hord arr hP
+
+/-- The same for a comparison given as irreflexive + transitive on all elements (a strict weak
+    order is that plus transitivity of incomparability, which Sort does not need). -/
+theorem sort_strict_weak_order {α : Type} (lt : α → α → Bool) (hirr : ∀ x, lt x x = false)
+    (htr : ∀ x y z, lt x y = true → lt y z = true → lt x z = true) (arr : Array α) :
+    ∃ out, sortSeg lt arr.size arr 0 arr.size = some out ∧
+      out.toList.Perm arr.toList ∧ out.toList.Pairwise (fun x y => lt y x = false) :=
+  sortSeg_full lt (fun _ => True)
+    (StrictOn.of_irrefl_trans (fun x _ => hirr x) (fun x y z _ _ _ => htr x y z)) arr (fun _ _ => trivial)
 
 /-- Any segment `[s, e)`: only positions inside the segment move, and the segment is ordered. -/
 theorem sort_segment {α : Type} (before : α → α → Bool) (P : α → Prop) (hord : StrictOn P before)
